@@ -16,10 +16,14 @@ def run(ctx):
     RL.maps_before_function_words(ctx, "R08.f")
     RL.function_word_tables(ctx, "R08.f")
     RR.component_formulas(ctx, "R08.g")
+    from . import r_word as RW
+    RW.get_pos_lookup(ctx, "R08.h")
+    RW.word_field_from_lang(ctx, "R08.h", "set_pos", "pos", "Lang::get_pos")
     RR.bounded_selection(ctx, "R06.a", check_limit_arg=False)
     return info("R08.a: each of chars/words/tails/trans/offset is stored at a smaller slot than the rating, slots are written "
                 "once and in range, Scores::iter walks front to back; R08.b: compare_hits is descending and each constrained "
                 "component has the documented sign; R08.c: only score_rating_up reads the rating; R08.d: function words are "
                 "exactly {Article, Preposition, Conjunction, Particle}; R08.e: score_words_up counts only !func matches; "
+                "R08.h: Lang::get_pos returns the function-word table entry of the word unfiltered (decision table) and WordShape::set_pos assigns it for exactly the word's characters on every path; "
                 "R08.f: language maps are filled before function words are registered; R08.g: the formulas of the tails / trans / "
                 "offset components keep their recognised shape.")
